@@ -86,6 +86,14 @@ impl Minimiser<'_> {
             if p != best && self.fails(&p) {
                 best = p;
             }
+            // and a single CPU
+            let mut p = best.clone();
+            for e in &mut p.epochs {
+                e.cpus = 1;
+            }
+            if p != best && self.fails(&p) {
+                best = p;
+            }
         }
         // 1. epochs
         if best.epochs.len() > 1 {
